@@ -555,6 +555,10 @@ func run(c *runner.Ctx) {
 			{"slicemap-empty-then-missing-key", func() error { return valid.Map([]map[string]string{{"k": ""}, {"other": "x"}}, rm) }, true, 2},
 			{"slicemap-missing-then-empty-key", func() error { return valid.Map([]map[string]string{{"other": "x"}, {"k": ""}}, rm) }, true, 2},
 			{"slicemap-empty-missing-missing", func() error { return valid.Map([]map[string]int{{"k": 0}, {}, {"z": 1}}, rm) }, true, 3},
+			{"map-nil-interface-value", func() error { return valid.Map(map[string]interface{}{"k": nil, "other": 1}, rm) }, true, 0},
+			{"map-nil-pointer-value", func() error { var p *int; return valid.Map(map[string]*int{"k": p}, rm) }, true, 0},
+			{"map-nil-pointer-to-string-value", func() error { return valid.Map(map[string]*string{"k": nil, "z": nil}, rm) }, true, 0},
+			{"slicemap-nil-interface-value", func() error { return valid.Map([]map[string]interface{}{{"k": nil}}, rm) }, true, 0},
 			{"url-missing-param", func() error { return valid.Url("http://h/p?other=x", rm) }, true, 0},
 			{"url-missing-param-first", func() error { return valid.Url("http://h/p?other=x&z=1", rm) }, true, 0},
 			{"url-no-query", func() error { return valid.Url("http://h/p", rm) }, true, 0},
